@@ -6,6 +6,8 @@ import random
 import shutil
 
 from vlib import common
+from vlib import session_common as ssn
+from vlib import spec1d_common as sc1
 from vlib import spec1d_common as sc
 
 PID = "C03"
@@ -85,6 +87,28 @@ def run(tier):
                     break
                 evals += B
                 stop = False
+                # peak variants: the moments AT the peak index of the band (the index itself is C04's subject)
+                try:
+                    with np.errstate(all="ignore"):
+                        pk = s.peak_index(fmin, fmax).values
+                        pd_, ps_ = s.peak_direction(fmin, fmax).values, s.peak_directional_spread(fmin, fmax).values
+                except Exception:
+                    pk = None          # an all-missing / empty band makes argmax raise: outside the quantifier
+                if pk is not None:
+                    for i, c in enumerate(g):
+                        inband = [j for j in range(nf) if fmin <= f[j] < fmax]
+                        if not inband or max(c["e"][j] for j in inband) <= 0:
+                            continue
+                        j = int(pk[i])
+                        wd, ws = float(pf_dir[i, j]), float(pf_spr[i, j])
+                        gd, gs = float(pd_[i]), float(ps_[i])
+                        if (not math.isnan(wd) and abs(angdiff(gd, wd)) > 1e-9) or (not math.isnan(ws) and abs(gs - ws) > 1e-9):
+                            chk.violation("peak-variant", "peak direction / spread are not the direction / spread at the peak frequency of the band",
+                                          dict(ctx, e=c["e"], pq=c["pq"], band=[fmin, fmax], peak_index=j, got=[gd, gs], at_peak=[wd, ws]))
+                            stop = True
+                            break
+                if stop:
+                    break
                 for i, c in enumerate(g):
                     b = c["bands"][bi]
                     if b["m0"] <= 0:
@@ -190,6 +214,15 @@ def run(tier):
                             chk.violation("invariance:%s" % name, "%s changes when the spectrum is rotated / mirrored" % name,
                                           dict(ctx, before=np.asarray(p0[name]).tolist(), after=np.asarray(p1[name]).tolist()))
                     nontrivial += 1
+    # histories of one object (SpectrumSession.tla behaviours): directions / spreads after queries interleaved with in-place changes
+    sessions = sc1.tlc_sessions(chk, quick, chk.seed)
+    nrep, nq = ssn.freshness_replay(chk, sessions[:70] if quick else sessions, rng, [("1d", ssn.build_1d), ("2d/8 directions", ssn.build_2d)],
+                                    [("mean_direction", lambda s, lo, hi: s.mean_direction(lo, hi)), ("mean_directional_spread", lambda s, lo, hi: s.mean_directional_spread(lo, hi)),
+                                     ("peak_direction", lambda s, lo, hi: s.peak_direction(lo, hi)), ("peak_directional_spread", lambda s, lo, hi: s.peak_directional_spread(lo, hi)),
+                                     ("mean_direction_per_frequency", lambda s, lo, hi: s.mean_direction_per_frequency)], "C03")
+    chk.add("spec_traces_replayed", nrep)
+    chk.set("session_queries_compared", nq)
+    evals += nq
     chk.set("evaluations", evals)
     chk.set("distinct_nontrivial", len(distinct))
     chk.assume("the specification decides: band averages A,B exactly, the 45 degree sector (exact direction on the 8 boundaries), the group "
